@@ -46,11 +46,14 @@ def rand_utf8(rng, n):
             out += chr(rng.range(0x80, 0x7ff)).encode()
         elif k < 9:
             cp = rng.range(0x800, 0xffff)
-            if 0xd800 <= cp <= 0xdfff:
+            if 0xd800 <= cp <= 0xdfff or 0xfdd0 <= cp <= 0xfdef or cp >= 0xfffe:
                 cp = 0x20ac
             out += chr(cp).encode()
         else:
-            out += chr(rng.range(0x10000, 0x10ffff)).encode()
+            cp = rng.range(0x10000, 0x10ffff)
+            if cp & 0xfffe == 0xfffe:
+                cp = 0x1f600
+            out += chr(cp).encode()
     return out
 
 
